@@ -189,6 +189,15 @@ func vPort(a net.Addr) int {
 	return 0
 }
 
+// caddy.Context is not safe for concurrent provisioning: scenarios provision one at a time
+var vC03ProvMu sync.Mutex
+
+func vC03Prov(f func() error) error {
+	vC03ProvMu.Lock()
+	defer vC03ProvMu.Unlock()
+	return f()
+}
+
 func vRunRelay(ctx caddy.Context, sc vRelaySc) (res vRelayRes) {
 	rng := vNewRng(int64(sc.seed))
 	n := sc.peers
@@ -257,13 +266,22 @@ func vRunRelay(ctx caddy.Context, sc vRelaySc) (res vRelayRes) {
 
 	// ---- the proxy handler ----
 	h := &Handler{Upstreams: UpstreamPool{&Upstream{Dial: addrs}}}
-	if err := h.Provision(ctx); err != nil {
+	if err := vC03Prov(func() error { return h.Provision(ctx) }); err != nil {
 		res.err = "provision: " + err.Error()
 		return
 	}
-	defer h.Cleanup()
+	defer vC03Prov(h.Cleanup)
+	var asserted atomic.Bool
+	var herr atomic.Value // string: set by the handler goroutine, copied into res at the end
+	defer func() {
+		res.asserted = asserted.Load()
+		if e, ok := herr.Load().(string); ok && res.err == "" {
+			res.err = e
+		}
+	}()
 	final := layer4.HandlerFunc(func(cx *layer4.Connection) error {
-		_, res.asserted = cx.Conn.(closeWriter)
+		_, ok := cx.Conn.(closeWriter)
+		asserted.Store(ok)
 		return h.Handle(cx, nil)
 	})
 
@@ -331,7 +349,7 @@ func vRunRelay(ctx caddy.Context, sc vRelaySc) (res vRelayRes) {
 		if sc.pre > 0 {
 			_ = srv.SetReadDeadline(time.Now().Add(3 * time.Second))
 			if _, err := io.ReadFull(srv, pre); err != nil {
-				res.err = "prefetch: " + err.Error()
+				herr.Store("prefetch: " + err.Error())
 				return
 			}
 			_ = srv.SetReadDeadline(time.Time{})
@@ -343,23 +361,23 @@ func vRunRelay(ctx caddy.Context, sc vRelaySc) (res vRelayRes) {
 			err = final.Handle(cx)
 		case "throttle":
 			th := &l4throttle.Handler{ReadBytesPerSecond: 1e12, ReadBurstSize: 1 << 30}
-			if err = th.Provision(ctx); err == nil {
+			if err = vC03Prov(func() error { return th.Provision(ctx) }); err == nil {
 				err = th.Handle(cx, final)
 			}
 		case "proxy_protocol":
 			pp := &l4proxyprotocol.Handler{}
-			if err = pp.Provision(ctx); err == nil {
+			if err = vC03Prov(func() error { return pp.Provision(ctx) }); err == nil {
 				err = pp.Handle(cx, final)
 			}
 		case "tee":
 			raw, _ := json.Marshal(map[string]string{"handler": "verif_c03_discard"})
 			te := &l4tee.Handler{HandlersRaw: []json.RawMessage{raw}}
-			if err = te.Provision(ctx); err == nil {
+			if err = vC03Prov(func() error { return te.Provision(ctx) }); err == nil {
 				err = te.Handle(cx, final)
 			}
 		}
 		if err != nil {
-			res.err = "handle: " + err.Error()
+			herr.Store("handle: " + err.Error())
 		}
 		returned.Store(true)
 	}()
